@@ -282,6 +282,8 @@ def make(kind, rng, norb, nelec, **opt):
                 dets = [top, aufbau] + [d for d in chosen if d != top][: max(0, nd - 2)]
         else:
             raise ValueError(reference)
+        if opt.get("single"):
+            dets = dets[:1]          # a one-element determinant list: the trial IS its reference determinant
         coeffs = [dy(rng, nonzero=True) for _ in dets]
         d0 = dets[0]
         rank = max(len(set(d0[0]) - set(a)) + len(set(d0[1]) - set(b)) for a, b in dets)
